@@ -193,9 +193,12 @@ def prep_select(ob, V=None):
         if sel >= 0:
             if sel >= ob['nin']: return dict(ok=0)
             if not ctx.branch(match[sel]): return dict(ok=0)
+            if not ctx.branch(z3.ULT(R.B(hlib.le(ns[sel]), 32), 1)): return dict(ok=0)        # the funding transaction has one output: any other index refers to nothing
             return dict(ok=1, idx=sel, vout=z3.ZeroExt(32, R.B(hlib.le(ns[sel]), 32)))
         for i in range(ob['nin']):
-            if ctx.branch(match[i]): return dict(ok=1, idx=i, vout=z3.ZeroExt(32, R.B(hlib.le(ns[i]), 32)))
+            if ctx.branch(match[i]):
+                if not ctx.branch(z3.ULT(R.B(hlib.le(ns[i]), 32), 1)): return dict(ok=0)
+                return dict(ok=1, idx=i, vout=z3.ZeroExt(32, R.B(hlib.le(ns[i]), 32)))
         return dict(ok=0)
     return 'w_select', spec, io, ref, [], dict(hs=hs, ns=ns, fund=fund_full)
 
